@@ -46,9 +46,9 @@ def run(R):
                 if not c:
                     continue
                 n += 1
-                bound = strip_casts(c[1])
+                bound = strip_casts(fn.expand_expr(c[1], use_block=b))      # `const Index n = other.buffersPos_;`
                 fld = bound.get("fname") if isinstance(bound, dict) and bound.get("k") == "member" else None
-                ok = c[0] == "<" and fld == "buffersPos_"
+                ok = c[0] in ("<", "!=") and fld == "buffersPos_"
                 R.ob("C37.count-bound", fn, t.get("loc"), ok, "loop over the buffer-pointer array: %s %s %s" % (name, c[0], expr_str(bound)), sitekey="loop@" + fn.qname.split("::")[-1], why=WHY)
     R.need("C37.count-bound", n, 2, "loops over the buffer-pointer array (copy constructor, destructor)")
 
